@@ -182,6 +182,8 @@ class CoordGeo(object):
                             round(self.ell_ht, n), round(self.orth_ht, n))
 
     def notation(self, notation):
+        if notation == type(self.lat):  # Already in requested notation
+            return CoordGeo(self.lat, self.lon, self.ell_ht, self.orth_ht)
         if type(self.lat) == float:  # Decimal Degrees (float)
             # Use functions to convert from Decimal Degrees (float)
             if notation == float:
